@@ -2,7 +2,7 @@ import LoguruModel.Props.C02
 import LoguruModel.Conc.ForkQueueLemmas
 import LoguruModel.Generated.Locks
 import LoguruModel.Conc.ForkWorker
-import LoguruModel.Generated.QueueShape
+import LoguruModel.Generated.WorkerShape
 /-
 C15 – fork(): property theorems about the fork operation of `Conc.step` (acquire_locks in the
 forking thread: core lock, then every handler lock in an arbitrary order; `forked`; release_locks).
@@ -286,6 +286,6 @@ theorem report_after_release_witness :
   decide
 
 /-- tie G: in the current source every output of `_queued_writer` is inside `with <queue lock>` -/
-theorem worker_output_under_lock_of_source : Queue.ShapeGen.workerOutputUnderLock = true := by decide
+theorem worker_output_under_lock_of_source : Worker.ShapeGen.workerOutputUnderLock = true := by decide
 
 end C15
